@@ -33,20 +33,38 @@ theorem c07_state_independent_off (f : GState V → GState V × R) (rbw writes W
     (hd : ∀ v ∈ rbw, v ∉ W) : ∀ g g', AgreeOff W g g' → (f g).2 = (f g').2 :=
   fun g g' hg => h.reads g g' (hg.agreeOn hd)
 
-/-- **History independence.**  For every semantics respecting the summaries of table `t`: the result of a call of an
-    entry that reads first nothing anybody writes is the same after ANY two histories of calls of entries of `t`
-    (the histories may contain violating entries). -/
+/-- **History independence (general form).**  `Inv` is an invariant of the shared state preserved by every entry and
+    `ign` are memo-cache variables on which, under `Inv`, no result depends (`RespectsInv`).  For every semantics
+    respecting the summaries of table `t` in that sense: the result of a call of an entry that reads first nothing
+    anybody writes (memo caches aside) is the same after ANY two histories of calls of entries of `t` — the histories
+    may contain violating entries. -/
+theorem c07_history_independent_inv (t : Table) (Inv : GState V → Prop) (ign : List Nat)
+    (sem : EntrySummary → A → GState V → GState V × R)
+    (hsem : ∀ e ∈ t.entries, ∀ a, RespectsInv Inv ign (sem e a) e.rbw e.writes)
+    (e : EntrySummary) (he : e ∈ t.entries) (hok : e.badIgn t.written ign = []) (a : A)
+    (h h' : List (Call A)) (hh : ∀ c ∈ h, c.entry ∈ t.entries) (hh' : ∀ c ∈ h', c.entry ∈ t.entries)
+    (g : GState V) (hg : Inv g) :
+    (sem e a (runHist sem h g)).2 = (sem e a (runHist sem h' g)).2 := by
+  have frame : ∀ (l : List (Call A)), (∀ c ∈ l, c.entry ∈ t.entries) →
+      Inv (runHist sem l g) ∧ AgreeOff t.written (runHist sem l g) g := by
+    intro l hl
+    exact runHist_frame_inv Inv ign sem t.written l g hg (fun c hc => hsem c.entry (hl c hc) c.arg)
+      (fun c hc v hv => mem_written.2 ⟨c.entry, hl c hc, hv⟩)
+  have f1 := frame h hh
+  have f2 := frame h' hh'
+  refine (hsem e he a).reads _ _ f1.1 f2.1 ?_
+  intro v hv
+  simp only [List.mem_filter, Bool.not_eq_true', List.contains_eq_mem, decide_eq_false_iff_not] at hv
+  exact (f1.2.trans f2.2.symm) v (badIgn_eq_nil_iff.1 hok v hv.1 hv.2)
+
+/-- **History independence.**  The special case without invariant and memo caches. -/
 theorem c07_history_independent (t : Table) (sem : EntrySummary → A → GState V → GState V × R)
     (hsem : ∀ e ∈ t.entries, ∀ a, Respects (sem e a) e.rbw e.writes)
     (e : EntrySummary) (he : e ∈ t.entries) (hok : e.bad t.written = []) (a : A)
     (h h' : List (Call A)) (hh : ∀ c ∈ h, c.entry ∈ t.entries) (hh' : ∀ c ∈ h', c.entry ∈ t.entries) (g : GState V) :
-    (sem e a (runHist sem h g)).2 = (sem e a (runHist sem h' g)).2 := by
-  have frame : ∀ (l : List (Call A)), (∀ c ∈ l, c.entry ∈ t.entries) → AgreeOff t.written (runHist sem l g) g := by
-    intro l hl
-    exact runHist_frame sem t.written l g (fun c hc => hsem c.entry (hl c hc) c.arg)
-      (fun c hc v hv => mem_written.2 ⟨c.entry, hl c hc, hv⟩)
-  exact c07_state_independent_off (sem e a) e.rbw e.writes t.written (hsem e he a) (bad_eq_nil_iff.1 hok) _ _
-    ((frame h hh).trans (frame h' hh').symm)
+    (sem e a (runHist sem h g)).2 = (sem e a (runHist sem h' g)).2 :=
+  c07_history_independent_inv t (fun _ => True) [] sem (fun e he a => (hsem e he a).toInv) e he
+    (by simpa [EntrySummary.badIgn, EntrySummary.bad] using hok) a h h' hh hh' g trivial
 
 /-- **First call = n-th call**: repeating the identical call any number of times does not change its result. -/
 theorem c07_nth_call (t : Table) (sem : EntrySummary → A → GState V → GState V × R)
@@ -80,41 +98,55 @@ structure Isolated (S : Sys σ α β ca cb) : Prop where
 theorem c07_interleaving_independent (S : Sys σ α β ca cb) (h : Isolated S) (h₁ : List ca) (h₂ : List cb)
     (es : List (Ev ca cb)) (hes : IsInterleaving es h₁ h₂) (s : σ) (x : α) (y : β) :
     (run S es (s, x, y)).2.1 = (soloA S h₁ (s, x)).2 ∧ (run S es (s, x, y)).2.2 = (soloB S h₂ (s, y)).2 := by
-  have iso : IsolatedRel S (fun _ _ => True) :=
-    ⟨fun _ => trivial, fun _ _ _ => trivial, fun _ _ _ _ _ => trivial,
-     fun s s' x c _ => h.a_ignores s s' x c, fun s s' y c _ => h.b_ignores s s' y c,
-     fun _ _ _ => trivial, fun _ _ _ => trivial⟩
-  have := run_eq_solo S iso es s x y
+  have iso : IsolatedRel S (fun _ => True) (fun _ _ => True) :=
+    ⟨fun _ _ _ => trivial, fun _ _ _ _ _ => trivial, fun _ _ _ _ => trivial, fun _ _ _ _ => trivial,
+     fun s s' x c _ _ _ => h.a_ignores s s' x c, fun s s' y c _ _ _ => h.b_ignores s s' y c,
+     fun _ _ _ _ => trivial, fun _ _ _ _ => trivial⟩
+  have := run_eq_solo S iso es s x y trivial
   rw [hes.1, hes.2] at this
   exact this
 
-/-- handler semantics with a builder-local state: respects `(rbw, writes)` when shared variables outside `writes`
-    keep their value and the new local state only depends on the incoming values of the variables in `rbw` -/
-structure RespectsLocal (f : GState V → L → GState V × L) (rbw writes : List Nat) : Prop where
+/-- handler semantics with a builder-local state: respects `(rbw, writes)` — under the invariant `Inv` of the shared
+    state and with the memo caches `ign` — when shared variables outside `writes` keep their value, `Inv` is
+    preserved, and the new local state only depends on the incoming values of the variables in `rbw` outside `ign` -/
+structure RespectsLocal (Inv : GState V → Prop) (ign : List Nat) (f : GState V → L → GState V × L)
+    (rbw writes : List Nat) : Prop where
   frame : ∀ g l v, v ∉ writes → (f g l).1 v = g v
-  reads : ∀ g g' l, AgreeOn rbw g g' → (f g l).2 = (f g' l).2
+  inv : ∀ g l, Inv g → Inv (f g l).1
+  reads : ∀ g g' l, Inv g → Inv g' → AgreeOn (rbw.filter (fun v => !ign.contains v)) g g' → (f g l).2 = (f g' l).2
 
 /-- **Interleaving theorem, driven by the extracted summaries.**  Two builders whose handler calls are entries of
-    table `t` that read first nothing anybody writes: for every merge of their two call sequences each builder ends in
-    its solo state. -/
-theorem c07_interleaving_summary (t : Table) (hsem : EntrySummary → A → GState V → L → GState V × L)
-    (hresp : ∀ e ∈ t.entries, ∀ a, RespectsLocal (hsem e a) e.rbw e.writes)
-    (h₁ h₂ : List {c : Call A // c.entry ∈ t.entries ∧ c.entry.bad t.written = []})
-    (es : List (Ev _ _)) (hes : IsInterleaving es h₁ h₂) (g : GState V) (x y : L) :
+    table `t` that read first nothing anybody writes (memo caches `ign` aside): for every merge of their two call
+    sequences, from every shared state satisfying the invariant, each builder ends in its solo state. -/
+theorem c07_interleaving_summary (t : Table) (Inv : GState V → Prop) (ign : List Nat)
+    (hsem : EntrySummary → A → GState V → L → GState V × L)
+    (hresp : ∀ e ∈ t.entries, ∀ a, RespectsLocal Inv ign (hsem e a) e.rbw e.writes)
+    (h₁ h₂ : List {c : Call A // c.entry ∈ t.entries ∧ c.entry.badIgn t.written ign = []})
+    (es : List (Ev _ _)) (hes : IsInterleaving es h₁ h₂) (g : GState V) (hg : Inv g) (x y : L) :
     let S : Sys (GState V) L L _ _ := ⟨fun g l c => hsem c.1.entry c.1.arg g l, fun g l c => hsem c.1.entry c.1.arg g l⟩
     (run S es (g, x, y)).2.1 = (soloA S h₁ (g, x)).2 ∧ (run S es (g, x, y)).2.2 = (soloB S h₂ (g, y)).2 := by
   intro S
-  have loc : ∀ (g g' : GState V) (l : L) (c : {c : Call A // c.entry ∈ t.entries ∧ c.entry.bad t.written = []}),
-      AgreeOff t.written g g' → (hsem c.1.entry c.1.arg g l).2 = (hsem c.1.entry c.1.arg g' l).2 :=
-    fun g g' l c hg => (hresp c.1.entry c.2.1 c.1.arg).reads g g' l (hg.agreeOn (bad_eq_nil_iff.1 c.2.2))
-  have stays : ∀ (g : GState V) (l : L) (c : {c : Call A // c.entry ∈ t.entries ∧ c.entry.bad t.written = []}),
-      AgreeOff t.written (hsem c.1.entry c.1.arg g l).1 g :=
-    fun g l c v hv => (hresp c.1.entry c.2.1 c.1.arg).frame g l v
+  have loc : ∀ (g g' : GState V) (l : L)
+      (c : {c : Call A // c.entry ∈ t.entries ∧ c.entry.badIgn t.written ign = []}),
+      Inv g → Inv g' → AgreeOff t.written g g' → (hsem c.1.entry c.1.arg g l).2 = (hsem c.1.entry c.1.arg g' l).2 := by
+    intro g g' l c hi hi' hg
+    refine (hresp c.1.entry c.2.1 c.1.arg).reads g g' l hi hi' ?_
+    intro v hv
+    simp only [List.mem_filter, Bool.not_eq_true', List.contains_eq_mem, decide_eq_false_iff_not] at hv
+    exact hg v (badIgn_eq_nil_iff.1 c.2.2 v hv.1 hv.2)
+  have stays : ∀ (g : GState V) (l : L)
+      (c : {c : Call A // c.entry ∈ t.entries ∧ c.entry.badIgn t.written ign = []}),
+      Inv g → AgreeOff t.written (hsem c.1.entry c.1.arg g l).1 g :=
+    fun g l c _ v hv => (hresp c.1.entry c.2.1 c.1.arg).frame g l v
       (fun hm => hv (mem_written.2 ⟨c.1.entry, c.2.1, hm⟩))
-  have iso : IsolatedRel S (AgreeOff t.written) :=
-    ⟨AgreeOff.refl _, fun _ _ h => h.symm, fun _ _ _ h h' => h.trans h',
-     fun s s' x c h => loc s s' x c h, fun s s' y c h => loc s s' y c h, stays, stays⟩
-  have := run_eq_solo S iso es g x y
+  have inv : ∀ (g : GState V) (l : L)
+      (c : {c : Call A // c.entry ∈ t.entries ∧ c.entry.badIgn t.written ign = []}),
+      Inv g → Inv (hsem c.1.entry c.1.arg g l).1 :=
+    fun g l c hi => (hresp c.1.entry c.2.1 c.1.arg).inv g l hi
+  have iso : IsolatedRel S Inv (AgreeOff t.written) :=
+    ⟨fun _ _ h => h.symm, fun _ _ _ h h' => h.trans h', inv, inv,
+     fun s s' x c hi hi' h => loc s s' x c hi hi' h, fun s s' y c hi hi' h => loc s s' y c hi hi' h, stays, stays⟩
+  have := run_eq_solo S iso es g x y hg
   rw [hes.1, hes.2] at this
   exact this
 
@@ -129,15 +161,26 @@ theorem okModulo_spec (t : Table) (names : Array String) (known : List String) (
   · rename_i s hs; exact ⟨s, hs, by simpa using this⟩
   · cases this
 
-/-- an entry of a table that is ok modulo `known`, none of whose read-first variables carries a known name, reads
-    first nothing anybody writes -/
-theorem entry_ok_of_okModulo (t : Table) (names : Array String) (known : List String)
-    (h : t.okModulo names known = true) (e : EntrySummary) (he : e ∈ t.entries)
-    (hk : ∀ v ∈ e.rbw, ∀ s, names[v]? = some s → s ∉ known) : e.bad t.written = [] := by
-  apply entry_ok_of_not_violating he
-  intro v hv hviol
-  obtain ⟨s, hs, hmem⟩ := okModulo_spec t names known h _ hviol
-  exact hk v hv s hs hmem
+theorem mem_idsOf {names : Array String} {l : List String} {v : Nat} {s : String} (h : names[v]? = some s)
+    (hs : s ∈ l) : v ∈ idsOf names l := by
+  have hlt : v < names.size := by
+    rcases Nat.lt_or_ge v names.size with h' | h'
+    · exact h'
+    · rw [Array.getElem?_eq_none h'] at h; cases h
+  simp only [idsOf, List.mem_filter, List.mem_range]
+  exact ⟨hlt, by rw [h]; simpa using hs⟩
+
+/-- an entry of a table that is ok modulo `known ++ benign`, none of whose read-first variables carries a known
+    (defect) name, reads first nothing anybody writes — the benign memo caches aside -/
+theorem entry_ok_of_okModulo (t : Table) (names : Array String) (known benign : List String)
+    (h : t.okModulo names (known ++ benign) = true) (e : EntrySummary) (he : e ∈ t.entries)
+    (hk : ∀ v ∈ e.rbw, ∀ s, names[v]? = some s → s ∉ known) : e.badIgn t.written (idsOf names benign) = [] := by
+  rw [badIgn_eq_nil_iff]
+  intro v hv hign hW
+  obtain ⟨s, hs, hmem⟩ := okModulo_spec t names (known ++ benign) h (e.name, v) (mem_violations.2 ⟨e, he, rfl, hv, hW⟩)
+  rcases List.mem_append.1 hmem with hkn | hbn
+  · exact hk v hv s hs hkn
+  · exact hign (mem_idsOf hs hbn)
 
 /-! ## the `NetworkBuilder` model -/
 
